@@ -476,7 +476,7 @@ type keyProbe struct {
 	hung    bool           // it never returned: the cache is wedged
 }
 
-const probeTimeout = 3 * time.Second
+const probeTimeout = 15 * time.Second
 
 func probeKeys(c config, caches []starlark.Value) map[int]keyProbe {
 	probeThread := &starlark.Thread{Name: "probe"} // one thread for all probes, like a body that asks several caches
